@@ -39,7 +39,7 @@ theorem assignment_reaches_each_watcher_once (c : Cfg) (f : Nat) (w : World) (p 
     (hb : w.batch = false) (hok : (run c f (.setPlain p v) w).1 = .ok) :
     (callSigs (run c f (.setPlain p v) w).2.2).filter (fun s => !s.2.2) =
       (expectedFor w p (getVal w p) v).map
-        (fun wt => (wt.id, [typed w.trigger wt ⟨p, getVal w p, v⟩], false)) := by
+        (fun wt => (wt.cb, [typed w.trigger wt ⟨p, getVal w p, v⟩], false)) := by
   cases f with
   | zero => simp [run] at hok
   | succ f =>
@@ -88,8 +88,7 @@ theorem assignment_log_is_the_setter's (c : Cfg) (f : Nat) (w : World) (p : Nat)
   split
   · generalize run c f (.setPlain p v) w = d
     obtain ⟨r1, w1, o1⟩ := d
-    cases r1 <;> simp
-    split <;> simp
+    cases r1 <;> simp <;> split <;> simp
   · exact ⟨rfl, rfl⟩
 
 /-- **C03 (the object already shows the new value).**  The value is installed before the first
@@ -160,7 +159,7 @@ theorem nonqueued_callback_runs_body_unbatched (c : Cfg) (f : Nat) (w : World) (
     (evs : List TEv) (fl : Bool) (hq : wt.queued = false) (hb : w.batch = false) :
     run c (f + 1) (.exec wt evs fl) w =
       let r := run c f (.stmts (c.body wt.body)) { w with batch := false, ncalls := w.ncalls + 1 }
-      (r.1, { r.2.1 with batch := false }, [.call wt.id evs fl w.vals r.2.2 r.1]) := by
+      (r.1, { r.2.1 with batch := false }, [.call wt.cb evs fl w.vals r.2.2 r.1]) := by
   simp [run, hq, hb]
 
 /-! ### The changes-only test on arbitrary values (`Comparator.is_equal`) -/
@@ -190,7 +189,7 @@ theorem comparator_incomplete_outside_plain :
 def exCfg : Cfg := { bounds := [(some 0, some 9), (none, none)], bodies := [[.set 0 5]] }
 def exWorld : World :=
   { vals := [1, 2], batch := false, trigger := false, events := [], queued := [],
-    regs := [⟨0, [1], true, false, 1, 0⟩, ⟨1, [1, 0], false, false, 0, 1⟩, ⟨2, [0], true, true, 0, 1⟩] }
+    regs := [⟨0, [1], true, false, 1, 0, 0⟩, ⟨1, [1, 0], false, false, 0, 1, 1⟩, ⟨2, [0], true, true, 0, 1, 2⟩] }
 
 example : exWorld.batch = false ∧ (run exCfg 50 (.setPlain 1 7) exWorld).1 = .ok := by decide
 -- watcher 1 (precedence 0) before watcher 0 (precedence 1); watcher 0's body assigns p0, dispatched depth-first
